@@ -28,7 +28,7 @@ def sh(cmd, **kw):
 
 
 def lane(i):
-    root = f'/tmp/seedlane-{i}'
+    root = f'/tmp/seedlane{os.environ.get("LANESET", "")}-{i}'
     sh(['git', '-C', '/repo', 'worktree', 'remove', '--force', root + '/repo'])
     shutil.rmtree(root, ignore_errors=True)
     os.makedirs(root)
@@ -52,7 +52,7 @@ def lane(i):
         if applied:
             sh(['git', '-C', root + '/repo', 'reset', '-q'])
             p = sh(['./check', prop], cwd=root + '/verif', env=env)
-            lines = [re.sub(r'replay=/tmp/seedlane-\d+/verif/', 'replay=/verif/', l) for l in p.stdout.split('\n') if re.match(r'^(VIOLATION|OK)', l)]
+            lines = [re.sub(r'replay=/tmp/seedlane\w*-\d+/verif/', 'replay=/verif/', l) for l in p.stdout.split('\n') if re.match(r'^(VIOLATION|OK)', l)]
             rc = p.returncode
         sh(['git', '-C', root + '/repo', 'reset', '-q', '--hard', 'HEAD'])
         sh(['git', '-C', root + '/repo', 'clean', '-fdq'])
